@@ -184,6 +184,82 @@ def encoder_sections(ctx, pid):
     return [s, r]
 
 
+def token_sections(ctx, pid):
+    from ..pyvc.enctheory import EncTheory
+    from ..contracts import encoder as ce
+    s = Section("token-predicate-contracts", "smt",
+                rule="Token.is_unquoted_string / is_parameter_name / is_numeric / is_string / is_begin_aggregation / is_end_statement / "
+                     "is_delimiter / is_comment / is_decimal / is_non_decimal / is_datetime / is_quoted_string / is_simple_value == their "
+                     "definitions over the grammar tables and the decoder's acceptance predicates")
+    t0 = time.time()
+    s_contracts = ce.token_contracts()
+    verify_contracts(s, s_contracts, EncTheory, ["pvl.token"], jobs=ctx.jobs)
+    s.assumptions += [ENC_ASSUMPTIONS[0], ENC_ASSUMPTIONS[3],
+                      "decoder.decode_X(token) returns or raises ValueError as decided by one uninterpreted predicate per method "
+                      "(which exceptions can leave a decoder method: T_dec); Token.is_space / is_WSC / __index__ / __float__ are not under contract"]
+    s.seconds = time.time() - t0
+    # run-time evaluation of the same contracts on real Tokens
+    from ..pyvc import encnative
+    import pvl.grammar as G
+    import pvl.decoder as D
+    r = Section("token-predicate-runtime-contracts", "bounded", bounded=True,
+                rule="the real Token predicate is called on a catalogue of texts and the contract's post formula is evaluated with "
+                     "every uninterpreted symbol interpreted by the real Python operation",
+                bounds={"texts": len(encnative.STRINGS) + len(TOKEN_TEXTS), "grammar/decoder pairs": 5})
+    t1 = time.time()
+    failed = {}
+    for o in s.obls:
+        if o.status == "failed":
+            failed.setdefault(o.function, o.name)
+    contracts = [c for c in s_contracts if c.fn is not None]
+    for gname, gcls, dcls in (("PVL", G.PVLGrammar, D.PVLDecoder), ("ODL", G.ODLGrammar, D.ODLDecoder), ("PDS3", G.PDSGrammar, D.PDSLabelDecoder),
+                              ("ISIS", G.ISISGrammar, D.PVLDecoder), ("Omni", G.OmniGrammar, D.OmniDecoder)):
+        g = gcls()
+        d = dcls(grammar=g)
+        for c in contracts:
+            for text in encnative.STRINGS + TOKEN_TEXTS:
+                try:
+                    bad = encnative.check_token(c, g, d, text)
+                except KeyError as e:
+                    if len(r.notes) < 5:
+                        r.notes.append(f"run-time evaluation skipped {c.target}: {e!r}")
+                    continue
+                r.case(distinct_key=(gname, c.target, text[:40]), sample={"grammar": gname, "predicate": c.target, "text": text[:40]})
+                if bad:
+                    what, data = bad
+                    r.violation(f"{pid}:token:{c.target.rsplit('.', 1)[1]}:{gname}:{data.get('clause', 'raised')[:40]}", f"{gname}: {what}",
+                                {"grammar": gname, "function": c.target, "text": text, **data}, obligation=failed.get(c.target, ""),
+                                concrete=True)
+    r.seconds = time.time() - t1
+    return [s, r]
+
+
+TOKEN_TEXTS = ["/* c */", "/* c", "# c\n", "# c", "#", "*/", "GROUP", "end_object", "Begin_Group", "END", ";", "=", "(", "{", "<", "a<b",
+               "2#1#", "+16#ff#", "1e5", ".5", "2001-366", "12:00:60Z", "2001-01-01T12:00+01:00", "a/*b", "x*/", "\t", " ", "a;b"]
+
+
+TIME_ASSUMPTIONS = [
+    "float arithmetic on the zone offset (abs, divmod, /, round, int) is treated as real arithmetic",
+    "a zone is a fixed offset: value.tzinfo.utcoffset(None) == value.utcoffset(); |offset| < 24 h",
+    "strftime renders the fields it is given (%H %M %S %f two/six digits) - the format strings are compared literally; "
+    "encode_date / encode_datetime (calendar fields) and the decoder side of the instant are bounded (C14 driver)",
+]
+
+
+def time_sections(ctx, pid):
+    from ..pyvc.timetheory import TimeTheory
+    from ..contracts import encoder as ce
+    s = Section("encoder-time-contracts", "smt",
+                rule="encode_time of PVLEncoder / ODLEncoder / PDSLabelEncoder: the written fields are the value's fields at its "
+                     "precision, the written zone denotes the value's offset (sign * (HH*3600 + MM*60) == utcoffset), or ValueError "
+                     "exactly when the dialect cannot represent the value")
+    t0 = time.time()
+    verify_contracts(s, ce.time_contracts(pid), TimeTheory, ["pvl.encoder"], jobs=min(3, ctx.jobs))
+    s.assumptions += TIME_ASSUMPTIONS
+    s.seconds = time.time() - t0
+    return [s]
+
+
 def sections_for(pid, ctx):
     out = []
     if pid in ("C17", "C03", "C14"):
@@ -192,6 +268,10 @@ def sections_for(pid, ctx):
         out += lexer_sections(ctx, pid)
     if pid in ("C01", "C02", "C07", "C12", "C17"):
         out += encoder_sections(ctx, pid)
+    if pid in ("C14", "C01"):
+        out += time_sections(ctx, pid)
+    if pid in ("C17", "C04"):
+        out += token_sections(ctx, pid)
     if pid in ("C17", "C03", "C14"):
         from . import regexsec
         out += regexsec.sections_for(pid, ctx)
@@ -224,6 +304,21 @@ def replay_encoder(pid, data):
             if o.status == "failed" and (not fn or fn in o.name):
                 return f"obligation {o.name} failed: {o.detail[:300]}"
     return None
+
+
+def replay_time(pid, data):
+    from ..harness import Ctx
+    for sec in time_sections(Ctx(pid, "quick", 0), pid):
+        for v in sec.violations:
+            return v.what
+        for o in sec.obls:
+            if o.status == "failed":
+                return f"obligation {o.name} failed: {o.detail[:300]}"
+    return None
+
+
+def is_time_record(data):
+    return str(data.get("function", "")).endswith(".encode_time")
 
 
 def is_encoder_record(data):
